@@ -1,6 +1,7 @@
 """C11 -- encoding is total and failures are classified correctly."""
 import enccommon
 import gen
+import corpus
 from enccommon import model_line, canon_impl
 
 PID = 'C11'
@@ -20,6 +21,7 @@ def gen_cases(rng, tier, ctx):
     cs = gen.encoder_cases(rng, tier, n, allow_empty_modes=True, allow_empty_list=True, eci_share=5)
     cs += gen.boundary_cases(rng, tier, per_cap=1 if tier == 'quick' else 4)
     cs += gen.constant_cases(rng, tier)
+    cs += corpus.encoder_cases()
     cs += gen.prefix_cases(rng, tier)
     # every mode subset on a few mixed strings, singleton / pair / empty lists
     base = [list(b"ABC123abc"), [32, 100, 117], list(b"12345678"), [], [200, 201, 49, 50], list(b"\r*> A1")]
